@@ -411,7 +411,14 @@ class TD3(RLAlgorithm):
         :param policy_noise: Standard deviation of noise applied to policy, defaults to 0.2
         :type policy_noise: float, optional
         """
-        states, actions, rewards, next_states, dones = experiences
+        if hasattr(experiences, "keys"):
+            # TensorDict (or dict) batch as returned by ``ReplayBuffer.sample()``
+            states, actions, rewards, next_states, dones = (
+                experiences[key]
+                for key in ("obs", "action", "reward", "next_obs", "done")
+            )
+        else:
+            states, actions, rewards, next_states, dones = experiences
 
         actions = actions.to(self.device)
         rewards = rewards.to(self.device)
